@@ -454,8 +454,10 @@ static void _fff_pth_interval(double* am, double* aM,
     a = *bufl;
 
     if (il == jr) {
-      *am=a;
-      *aM=a;
+      if (stop1 == 0)
+	*am=a;
+      if (stop2 == 0)
+	*aM=a;
       return;
     }
 
